@@ -571,7 +571,7 @@ class CheckC08(Check):
 
     def generate(self, r, seed, tier):
         algo = r.choice(["SOO", "StoSOO", "DOO"])
-        n = gen.gen_budget(r, 100, 400)
+        n = gen.gen_budget(r, 100, 400 if tier == "quick" else 1000)
         kinds = ["const", "int", "fewlevels", "gauss", "obj", "neg", "unit", "zero", "late", "altsign", "objneg", "edge"]
         return gen.base_scenario(r, seed, algo, n=n, reward_kinds=kinds, sched_prob=0.2, mid_prob=0.5, neighbour_prob=0.25)
 
@@ -595,7 +595,7 @@ class CheckC12(Check):
     probe_names = ["c12-depth-advance-by-last-unopened-cell", "c12-depth-advance-by-budget", "c12-schedule-exhausted"]
 
     def generate(self, r, seed, tier):
-        n = r.choice([10, 12, 17, 30, 50, 100, 128, 200, 300, 600]) if r.random() < 0.3 else r.randint(10, 600)
+        n = r.choice([10, 12, 17, 30, 50, 100, 128, 200, 300, 600]) if r.random() < 0.3 else r.randint(10, 600 if tier == "quick" else 2000)
         sc = gen.base_scenario(r, seed, "SequOOL", n=n, neighbour_prob=0.15, T=r.choice([n, n, n, max(1, n // 2), r.randint(1, n)]),
                                reward_kinds=["const", "int", "fewlevels", "gauss", "obj", "neg", "unit", "zero", "late", "altsign", "edge"])
         if r.random() < 0.3:
@@ -624,7 +624,7 @@ class CheckC07(Check):
     def generate(self, r, seed, tier):
         algo = gen.weighted(r, [("DOO", 3), ("SOO", 3), ("SequOOL", 3), ("StoSOO", 3), ("StroquOOL", 3), ("POO", 2), ("GPO", 1.5),
                                 ("PCT", 1), ("VPCT", 1)])
-        n = gen.gen_budget(r, 100, 400)
+        n = gen.gen_budget(r, 100, 400 if tier == "quick" else 1000)
         kinds = ["neg", "neg", "zero", "const", "int", "fewlevels", "late", "objneg", "obj", "gauss", "altsign", "edge"]
         sc = gen.base_scenario(r, seed, algo, n=n, reward_kinds=kinds, ok_only=True, cap_mode=r.choice(["big", "tight"]),
                                sched_prob=0.3 if algo in ("DOO", "SOO", "SequOOL", "StoSOO", "POO") else 0.0, mid_prob=0.4,
@@ -774,8 +774,8 @@ class CheckC11(Check):
 
     def generate(self, r, seed, tier):
         pool = gen.PARTS_ALL + gen.PARTS_MIDPOINT * 2
-        sc = gen.base_scenario(r, seed, "Zooming", parts=pool, n=gen.gen_budget(r, 100, 400), sched_prob=0.25, mid_prob=0.5,
-                               neighbour_prob=0.3)
+        sc = gen.base_scenario(r, seed, "Zooming", parts=pool, n=gen.gen_budget(r, 100, 400 if tier == "quick" else 1500),
+                               sched_prob=0.25, mid_prob=0.5, neighbour_prob=0.3)
         k = r.random()
         if k < 0.4:
             sc["params"] = {"nu": gen.loguniform(r, 0.5, 20), "rho": r.uniform(0.5, 0.95)}
